@@ -53,7 +53,7 @@ real_names = re.findall(r'"([^"]*)"', m.group(1)) if m else []
 names_file = os.path.join(work, "names.txt")
 open(names_file, "w").write("\n".join(real_names) + "\n")
 res = os.path.join(work, "out.json")
-n, mods, runs = (40000, 20, 40) if ck.thorough() else (3000, 3, 12)
+n, mods, runs = (40000, 20, 40) if ck.thorough() else (3000, 3, 8)
 rc, out = sh([exe, "-work", work, "-out", res, "-seed", str(ck.seed), "-n", str(n), "-mods", str(mods), "-runs", str(runs),
               "-staticcheck", sc, "-names", names_file], timeout=3000, env=dict(GOENV, VERIF_REPO=REPO))
 if rc != 0:
@@ -122,6 +122,9 @@ def ccase(c):
                                                  "(Some %s)" % S(c["ChecksFlag"]) if c["HasChecksFlag"] else "None",
                                                  "(Some %s)" % S(c["FailFlag"]) if c["HasFailFlag"] else "None",
                                                  coq_bool(c["ShowIgnored"]), pkgs, c["Exit"], coq_list([rend(r) for r in (c["Out"] or [])]))
+    if t == "loadbad":
+        CK = {"absent": "ConfAbsent", "ok": "ConfOk", "syntax": "ConfSyntaxError", "mistyped": "ConfMistyped"}
+        return "CLoadBad %s %s" % (coq_list([CK[k] for k in c["ConfKinds"]]), coq_bool(c["LoadErr"]))
     if t == "cone":
         KIND = {"named": "PNamed", "faileddep": "PFailedDep", "cleandep": "PCleanDep"}
         pkgs = coq_list(["(%s, %s, %s)" % (KIND[p["Kind"]], chain(p["Chain"], p["HasChain"]), coq_list([prob(q) for q in (p["Problems"] or [])])) for p in c["Pkgs"]])
@@ -211,6 +214,11 @@ def brief(c):
             " -show-ignored" if c["ShowIgnored"] else "", c["Format"], c["Note"],
             {p["Dir"]: (p["Chain"][-1] if p["HasChain"][-1] else None) for p in c["Pkgs"]}, c["Exit"], len(c["Out"] or []),
             sorted({(r["File"], r["Cat"]) for r in (c["Out"] or [])})[:12])
+    if t == "loadbad":
+        return "config.Load on staticcheck.conf files (outermost first) %s -> error: %s" % (c["Note"].strip(), c["LoadErr"])
+    if t == "cone" and c["Note"].startswith("badconf"):
+        return "staticcheck -f %s ./... with %s -> exit %d, printed %s (expected one load error for the packages below a/ plus the problems of the root package)" % (
+            c["Format"], c["Note"][8:-6], c["Exit"], [(r["File"], r["Line"], r["Col"], r["Cat"]) for r in (c["Out"] or [])])
     if t == "cone":
         return "staticcheck -f %s %s (patterns name the importer only; import cone: %s) -> exit %d, printed %s" % (
             c["Format"], c["Note"].split()[-1],
@@ -220,7 +228,7 @@ def brief(c):
 
 
 def key_of(c):
-    inp = {k: v for k, v in c.items() if k not in ("Map", "Parsed", "ParsedNil", "Effective", "Exit", "Out")}
+    inp = {k: v for k, v in c.items() if k not in ("Map", "Parsed", "ParsedNil", "Effective", "Exit", "Out", "LoadErr")}
     return "%s:%s" % (c["T"], hashlib.sha1(json.dumps(inp, sort_keys=True).encode()).hexdigest()[:12])
 
 
@@ -229,8 +237,9 @@ WHAT = {"DMap": "the allow map is not 'the last matching element of the selectio
         "DList": "the effective check list is not the innermost list with 'inherit' spliced from the next outer level",
         "DAllowed": "the effective check list selects other checks than the innermost list with 'inherit' spliced from the next outer level",
         "DExit": "exit status differs from: 1 iff not SARIF and a shown problem is in the -fail set or a compile/config/directive error",
-        "DOutput": "printed problems differ from the problems of the selected checks that are not hidden"}
-PRIO = {"parse": 0, "merge": 1, "filter": 2, "exit": 3, "load": 4, "cone": 4, "cli": 5}
+        "DOutput": "printed problems differ from the problems of the selected checks that are not hidden",
+        "DLoadErr": "config.Load must fail exactly when a staticcheck.conf on the way to the root cannot be decoded (syntax error or a value of the wrong type)"}
+PRIO = {"parse": 0, "loadbad": 0, "merge": 1, "filter": 2, "exit": 3, "load": 4, "cone": 4, "cli": 5}
 Vs.sort(key=lambda x: (PRIO.get(cases[x[0]]["T"], 9), len(json.dumps(cases[x[0]])), x[0]))
 seen_kinds = {}
 for i, diffs in Vs:
@@ -260,6 +269,8 @@ def nontrivial(c):
         return len(sel) >= 2 and any(s.endswith("*") for s in sel) and any(s.startswith("-") and len(s) > 1 for s in sel)
     if t == "parse":
         return "," in c["S"] and " " in c["S"]
+    if t == "loadbad":
+        return len(c["ConfKinds"]) >= 2
     if t in ("merge", "load"):
         setl = [l for l, h in zip(c["Chain"] or [], c["HasChain"] or []) if h]
         return len(setl) >= 1 and any("inherit" in l for l in setl) and (len(setl) >= 2 or len(setl) < len(c["Chain"] or []))
